@@ -119,27 +119,51 @@ def show(e, depth=0):
 # --------------------------------------------------------------------------
 # access paths
 
-class Path(tuple):
-    """(root_kind, root_name, step, step, ...) with steps '.f', '->f', '[]', '*'.
-    Address-of and the arrow/dot distinction are normalised by `norm()`."""
+class Path:
+    """(root_kind, root_name, step, step, ...) with steps '.f', '[]', '*'.
+    Address-of and the arrow/dot distinction are normalised away by path_of().
+    Deliberately not a tuple subclass (so that '%s' % path formats the path)."""
+    __slots__ = ('t',)
+
+    def __init__(self, items):
+        self.t = tuple(items)
+
+    def __iter__(self):
+        return iter(self.t)
+
+    def __len__(self):
+        return len(self.t)
+
+    def __getitem__(self, i):
+        return self.t[i]
+
+    def __eq__(self, other):
+        return tuple(self) == tuple(other) if other is not None else False
+
+    def __hash__(self):
+        return hash(self.t)
 
     def __str__(self):
-        return self[1] + ''.join(self[2:])
+        return self.t[1] + ''.join(self.t[2:])
+
+    __repr__ = __str__
 
     @property
     def root(self):
-        return self[1]
+        return self.t[1]
 
     @property
     def root_kind(self):
-        return self[0]
+        return self.t[0]
 
     def fields(self):
-        return [s.lstrip('.->') for s in self[2:] if s[0] in '.-']
+        return [s.lstrip('.->') for s in self.t[2:] if s[0] in '.-']
 
     def last_field(self):
-        f = self.fields()
-        return f[-1] if f else None
+        f = self.t[-1] if len(self.t) > 2 else None
+        if f is not None and f[0] == '.':
+            return f[1:]
+        return None
 
 
 def path_of(e):
